@@ -482,6 +482,12 @@ theorem step_inv (cd : Codec) (law : Lawful cd) (keys : Nat → Option Bytes) (b
   | withChunkSize n =>
     simp only [step, Except.ok.injEq] at h; subst h
     simpa [Op.content] using ⟨hinv.1, hinv.2⟩
+  | withChunkSizeChecked n =>
+    simp only [step] at h
+    split at h
+    · cases h
+    · simp only [Except.ok.injEq] at h; subst h
+      simpa [Op.content] using ⟨hinv.1, hinv.2⟩
   | withEncryption s k =>
     simp only [step, Except.ok.injEq] at h; subst h
     refine ⟨by simpa [Op.content] using hinv.1, ?_⟩
